@@ -10,7 +10,7 @@
 (* The model's Next relation (MilkyWay.tla) and the trace validator        *)
 (* (Trace.tla) are both built from this one operator.                      *)
 (***************************************************************************)
-EXTENDS Staking, TLC
+EXTENDS Staking, Treasury, TLC
 
 \* ------------------------------------------------------------------ ledgers as functions
 Bal(bank, a, d) == IF <<a, d>> \in DOMAIN bank THEN bank[<<a, d>>] ELSE 0
@@ -33,7 +33,7 @@ IbcStep(acc, msg, ibcFail) ==
              !.w = [w EXCEPT !.bank = Debit(w.bank, Contract, msg.den, msg.amt),
                              !.ibc = [next |-> seq + 1,
                                       fly |-> w.ibc.fly \cup {[seq |-> seq, den |-> msg.den, amt |-> msg.amt,
-                                                               rcv |-> msg.rcv, ch |-> w.c.cfg.channel]}],
+                                                               rcv |-> msg.rcv, ch |-> w.c.cfg.channel, snd |-> Contract]}],
                              \* the reply handler tracks the packet (execute.rs handle_ibc_reply)
                              !.c.pk = @ \cup {[seq |-> seq, den |-> msg.den, amt |-> msg.amt,
                                                rcv |-> msg.rcv, status |-> "sent"]}],
@@ -103,15 +103,16 @@ IbcOutcome(w, call) ==
   IF call.seq \notin {p.seq : p \in w.ibc.fly} THEN Refused(w, {"no_such_packet"})
   ELSE LET p == Packet(w, call.seq)
            fly1 == w.ibc.fly \ {p}
-           c1 == SudoAck(w.c, p.ch, p.seq, call.outcome)
+           \* only the staking contract registers a callback the chain can deliver
+           c1 == IF p.snd = Contract THEN SudoAck(w.c, p.ch, p.seq, call.outcome) ELSE w.c
        IN IF call.outcome = "ok"
           THEN Done([w EXCEPT !.ibc.fly = fly1, !.c = c1,
                               !.nat.bal = IF p.den = HookDenom THEN Add(@, p.rcv, p.amt) ELSE @,
                               !.nat.lst = IF p.den = HookDenom THEN @ ELSE Add(@, p.rcv, p.amt),
-                              !.led.deliv = @ + (IF p.den = HookDenom /\ p.rcv = w.c.cfg.staker THEN p.amt ELSE 0)],
+                              !.led.deliv = @ + (IF p.den = HookDenom /\ p.rcv = w.c.cfg.staker /\ p.snd = Contract THEN p.amt ELSE 0)],
                     << >>)
           ELSE Done([w EXCEPT !.ibc.fly = fly1, !.c = c1,
-                              !.bank = Credit(@, Contract, p.den, p.amt)], << >>)
+                              !.bank = Credit(@, p.snd, p.den, p.amt)], << >>)
 
 \* an acknowledgement / timeout callback for something that is not in flight
 Stray(w, call) ==
@@ -130,6 +131,31 @@ HookCall(w, call) ==
      ELSE Done([r.w EXCEPT !.nat.bal = IF lim THEN Add(@, call.from, 0 - call.amt) ELSE @,
                            !.led.honest = @ /\ exact], r.msgs)
 
+\* ------------------------------------------------------------------ the treasury contract
+\* its messages: bank send and IBC transfer out of its own balance; swaps are handed to the pool
+\* manager, which is not modelled (the message itself is what C13 constrains)
+TMsgStep(acc, msg) ==
+  IF ~acc.ok THEN acc
+  ELSE LET w == acc.w IN
+    CASE msg.k = "t_send" ->
+           IF Bal(w.bank, TreasuryAcct, msg.den) < msg.amt THEN [acc EXCEPT !.ok = FALSE, !.why = @ \cup {"bank_overdraft"}]
+           ELSE [acc EXCEPT !.w.bank = Credit(Debit(w.bank, TreasuryAcct, msg.den, msg.amt), msg.to, msg.den, msg.amt),
+                            !.out = Append(@, msg)]
+      [] msg.k = "t_ibc" ->
+           IF msg.amt = 0 \/ Bal(w.bank, TreasuryAcct, msg.den) < msg.amt THEN [acc EXCEPT !.ok = FALSE, !.why = @ \cup {"ibc_submit_failed"}]
+           ELSE [acc EXCEPT !.w.bank = Debit(w.bank, TreasuryAcct, msg.den, msg.amt),
+                            !.w.ibc = [next |-> w.ibc.next + 1,
+                                       fly |-> w.ibc.fly \cup {[seq |-> w.ibc.next, den |-> msg.den, amt |-> msg.amt,
+                                                                rcv |-> msg.rcv, ch |-> msg.channel, snd |-> TreasuryAcct]}],
+                            !.out = Append(@, msg @@ [seq |-> w.ibc.next, cb |-> TreasuryAcct, tmo |-> IbcTimeoutSecs])]
+      [] OTHER -> [acc EXCEPT !.out = Append(@, msg)]
+ExecTreasury(w, call) ==
+  LET r == TApply(w.t, call, w.now)
+      run == FoldLeft(TMsgStep, [w |-> [w EXCEPT !.t = r.t], ok |-> TRUE, out |-> << >>, why |-> {}], r.msgs)
+  IN IF ~r.ok THEN Refused(w, r.why)
+     ELSE IF ~run.ok THEN Refused(w, run.why)
+     ELSE Done(run.w, run.out)
+
 \* ------------------------------------------------------------------ everything
 Exec(w, call) ==
   CASE call.m = "faucet"   -> Done([w EXCEPT !.bank = Credit(@, call.a, call.d, call.x)], << >>)
@@ -139,6 +165,7 @@ Exec(w, call) ==
     [] call.m = "stray"    -> Stray(w, call)
     [] call.m = "hook"     -> HookCall(w, call)
     [] call.m \in ContractMsgs -> ExecContract(w, call)
+    [] call.m \in TreasuryMsgs -> ExecTreasury(w, call)
 
 ---------------------------------------------------------------------------
 \* The world right after instantiate (contract.rs instantiate + token-factory create-denom)
@@ -147,7 +174,7 @@ EmptyLedgers == [swept |-> 0, radjN |-> 0, radjL |-> 0, paid |-> << >>, wdl |-> 
 InitWorld(cfg, admin, now, bank) ==
   [c |-> InitContract(cfg, admin, now), bank |-> bank, sup |-> 0,
    ibc |-> [next |-> 1, fly |-> {}], nat |-> [bal |-> << >>, lst |-> << >>],
-   led |-> EmptyLedgers, now |-> now]
+   led |-> EmptyLedgers, now |-> now, t |-> TUninit]
 
 ---------------------------------------------------------------------------
 \* ------------------------------------------------------------------ the properties as state predicates
@@ -223,8 +250,8 @@ Act_C06(w, w1) ==
 Inv_C07(w) ==
   /\ w.c.waiting = 0
   /\ ~w.led.forced =>
-       /\ \A p \in w.c.pk : (p.status = "sent") <=> (p.seq \in {q.seq : q \in w.ibc.fly})
-       /\ \A q \in w.ibc.fly : q.ch = w.c.cfg.channel =>
+       /\ \A p \in w.c.pk : (p.status = "sent") <=> (p.seq \in {q.seq : q \in {x \in w.ibc.fly : x.snd = Contract}})
+       /\ \A q \in w.ibc.fly : (q.snd = Contract /\ q.ch = w.c.cfg.channel) =>
              \E p \in w.c.pk : p.seq = q.seq /\ p.den = q.den /\ p.amt = q.amt /\ p.rcv = q.rcv
   /\ \A p, q \in w.c.pk : p.seq = q.seq => p = q
 
